@@ -224,17 +224,22 @@ pub struct Root {
 
 /// contents of a pre-filled list of length n: the first n of these
 pub const PATTERN: [u8; 17] = [1, 0, 1, 1, 0, 0, 1, 0, 1, 1, 1, 0, 0, 1, 0, 1, 1];
+/// contents of a pre-filled list of `len` elements for an element type with
+/// `nvals` values; with three values (floats) every fifth element is value 2
+pub fn pattern(len: usize, nvals: u8) -> Vec<u8> {
+    (0..len).map(|i| if nvals == 3 && i % 5 == 4 { 2 } else { PATTERN[i] }).collect()
+}
 pub const SEED_LENS: [usize; 9] = [0, 3, 4, 5, 7, 8, 9, 16, 17];
 
 impl Root {
-    pub fn text(&self) -> String {
+    pub fn text(&self, nvals: u8) -> String {
         match self.shape {
             Shape::Empty => "no handles".into(),
             _ => {
                 let fill = format!(
                     "h0 = new list made and filled by {} with {:?}",
                     self.origin.name(),
-                    &PATTERN[..self.len]
+                    pattern(self.len, nvals)
                 );
                 match self.shape {
                     Shape::One => fill,
@@ -262,17 +267,20 @@ fn mlist(items: Vec<u8>, origin: Side) -> H {
 
 pub struct Model {
     pub h: [Option<H>; SLOTS],
-    /// false for the zero-sized element type: all elements are equal
-    pub distinct_vals: bool,
+    /// number of element values, which also fixes the element equality:
+    /// 1 = zero-sized type (all elements are equal), 2 = two elements with
+    /// reflexive equality (equal iff same value), 3 = floats: 0 = NaN,
+    /// 1 = 0.0, 2 = -0.0 (NaN equals nothing, the two zeros equal each other)
+    pub nvals: u8,
 }
 
 impl Model {
-    pub fn from_root(r: &Root, distinct_vals: bool) -> Model {
-        let mut m = Model { h: [None, None, None], distinct_vals };
+    pub fn from_root(r: &Root, nvals: u8) -> Model {
+        let mut m = Model { h: [None, None, None], nvals };
         if r.shape == Shape::Empty {
             return m;
         }
-        let items: Vec<u8> = PATTERN[..r.len].iter().map(|v| m.nv(*v)).collect();
+        let items: Vec<u8> = pattern(r.len, nvals).iter().map(|v| m.nv(*v)).collect();
         let l = mlist(items, r.origin);
         match r.shape {
             Shape::Aliased => m.h[1] = Some(l.clone()),
@@ -284,12 +292,25 @@ impl Model {
     }
 
     fn nv(&self, v: u8) -> u8 {
-        if self.distinct_vals { v } else { 0 }
+        if self.nvals > 1 { v } else { 0 }
+    }
+
+    /// element equality of the element type
+    pub fn veq(&self, a: u8, b: u8) -> bool {
+        match self.nvals {
+            1 => true,
+            3 => a != 0 && b != 0,
+            _ => a == b,
+        }
+    }
+
+    fn seq_eq(&self, a: &[u8], b: &[u8]) -> bool {
+        a.len() == b.len() && a.iter().zip(b).all(|(x, y)| self.veq(*x, *y))
     }
 
     /// copy that preserves the aliasing
     pub fn deep_clone(&self) -> Model {
-        let mut out = Model { h: [None, None, None], distinct_vals: self.distinct_vals };
+        let mut out = Model { h: [None, None, None], nvals: self.nvals };
         for i in 0..SLOTS {
             let Some(l) = &self.h[i] else { continue };
             if let Some(j) = (0..i).find(|j| self.h[*j].as_ref().is_some_and(|o| Rc::ptr_eq(o, l))) {
@@ -406,12 +427,17 @@ impl Model {
                 }
                 Res::Seq(items)
             }
-            Op::Contains { h, v } => Res::Bool(self.items(h).contains(&self.nv(v))),
+            Op::Contains { h, v } => {
+                let v = self.nv(v);
+                Res::Bool(self.items(h).iter().any(|x| self.veq(*x, v)))
+            }
             Op::Index { h, v } => {
                 let v = self.nv(v);
-                Res::OptNum(self.items(h).iter().position(|x| *x == v).map(|i| i as u64))
+                Res::OptNum(self.items(h).iter().position(|x| self.veq(*x, v)).map(|i| i as u64))
             }
-            Op::Eq { a, b } => Res::Bool(self.items(a) == self.items(b)),
+            // element-wise comparison of the two vectors, also when both
+            // handles are the same vector (as `Vec<f64> == Vec<f64>` does)
+            Op::Eq { a, b } => Res::Bool(self.seq_eq(&self.items(a), &self.items(b))),
             Op::ToVec { h } | Op::Iter { h } | Op::Dbg { h } => Res::Seq(self.items(h)),
             Op::Join { h } => {
                 let v: Vec<&str> = self.items(h).iter().map(|v| STR[*v as usize]).collect();
@@ -426,7 +452,7 @@ impl Model {
 /// what the alphabet depends on besides the state
 #[derive(Clone, Copy, Debug, PartialEq, Eq)]
 pub struct Alpha {
-    /// element values: [0, 1], or [0] for the zero-sized type
+    /// number of element values: 2, 1 for the zero-sized type, 3 for floats
     pub nvals: u8,
     pub join: bool,
     /// false: `swap` uses j in {0, len-1, len, MAX} only
@@ -570,8 +596,8 @@ impl Tree {
     }
 }
 
-pub fn replay_model(root: &Root, hist: &[Step], distinct_vals: bool) -> Model {
-    let mut m = Model::from_root(root, distinct_vals);
+pub fn replay_model(root: &Root, hist: &[Step], nvals: u8) -> Model {
+    let mut m = Model::from_root(root, nvals);
     for s in hist {
         m.apply(*s);
     }
@@ -581,7 +607,7 @@ pub fn replay_model(root: &Root, hist: &[Step], distinct_vals: bool) -> Model {
 /// Model-only breadth-first search to `max_depth`. Deterministic: the same in
 /// every worker and in the parent.
 pub fn bfs(root: &Root, max_depth: usize, al: &Alpha) -> Tree {
-    let distinct = al.nvals > 1;
+    let distinct = al.nvals;
     let mut t = Tree { root: *root, nodes: vec![Node { parent: u32::MAX, step: None, depth: 0 }], inner: 0, keys: vec![] };
     let mut seen: HashSet<Vec<u8>> = HashSet::new();
     let k0 = Model::from_root(root, distinct).key();
